@@ -296,10 +296,78 @@ def run(L, rep, tier, seed):
                             'startup_schedule_steps': len(sched), 'max_events_per_worker': me, 'commands': len(enc.cmds),
                             'lock_protected_objects': enc.protected, 'build_s': round(time.time() - t0, 1)}
         report_results(rep, 'C08', name, res, KNOWN, [name, n, ndyn, K], replayer=lambda v, info, so=enc0.startup_ops, n=n: replay_pool(L, v, rep, info, so, n))
+    saturated_burst(L, S, rep, tier, seed)
     accept_path(L, rep, tier, seed)
     # worker bookkeeping (registrations balanced when a surplus worker retires): the dispatch decision relies on it
     from props import c20
     c20.worker_contract(L, rep, tier, seed, prop='C08')
+
+
+def saturated_burst(L, S, rep, tier, seed):
+    """the regime above the pool size: from a state in which every initial worker is serving a connection that stays open
+    (found by the solver as ONE schedule from the idle state), two more connections arrive: each must still be started
+    (each needs a thread of its own), whatever the interleaving of the two dispatches and the new workers"""
+    name = 'burst2-from-saturated'
+    me = 12
+    KA, KB = (8, 10) if tier == 'quick' else (10, 14)
+    t0 = time.time()
+    try:
+        probe, _, _, _, _ = startup_state(S, 1, 0, me)
+        n_init = probe.n_init
+        n = n_init + 2
+        enc0, hooks, st, pins, sched = startup_state(S, n, 2, me)
+    except Unsupported as e:
+        rep.inconc('%s: unsupported construct: %s' % (name, e))
+        return
+    # the saturated state is reached connection by connection: for each of the first n_init dispatches the solver finds one
+    # schedule (<= KA steps) after which that connection is being served and the next dispatch has not happened yet
+    stA, pinsA, opsA = st, list(pins), list(enc0.startup_ops)
+    tA = 0.0
+    for i in range(1, n_init + 1):
+        try:
+            encA = bmc.Encoder(enc0.threads, enc0.objects, KA, cap=enc0.cap, spurious=False, hooks=hooks, symmetry=())
+            encA.initial_override = stA
+            encA.tasks = enc0.tasks
+            encA.use_clock = False
+            encA.build()
+        except Unsupported as e:
+            rep.inconc('%s: unsupported construct: %s' % (name, e))
+            return
+        SA = encA.S[KA]
+        goal = z3.And(SA['runs:%d' % i] == 1, SA['disp:%d' % i], z3.Not(SA['disp:%d' % (i + 1)]), z3.Not(encA.frontier_reached()))
+        r, m, dt = encA.solve(goal, timeout_ms=200000, seed=seed, extra=pinsA)
+        rep.queries += 1
+        rep.solver_seconds += dt
+        tA += dt
+        if r != z3.sat:
+            rep.obligation(name + '/witness/saturated-state-reached', 'inconclusive', solver=str(r), seconds=round(tA, 1))
+            rep.inconc('%s: no schedule of %d steps gets connection %d served from the state reached so far (%s): the pool changed shape'
+                       % (name, KA, i, r))
+            return
+        stA = encA.final_state(m)
+        pinsA += encA.pinned_results(m)
+        opsA += encA.trace_ops(m)
+    rep.obligation(name + '/witness/saturated-state-reached', 'holds', solver='sat', seconds=round(tA, 1))
+    enc = bmc.Encoder(enc0.threads, enc0.objects, KB, cap=enc0.cap, spurious=True, hooks=hooks, symmetry=())
+    enc.initial_override = stA
+    enc.tasks = enc0.tasks
+    enc.use_clock = False
+    enc.build()
+    rep.functions.update(enc0.encoded)
+    SK = enc.S[KB]
+    nf = z3.Not(enc.frontier_reached())
+    late = [i for i in enc.tasks if i > n_init]
+    stranded = z3.Or(*[z3.And(enc.quiescent(SK), SK['disp:%d' % i], SK['runs:%d' % i] == 0) for i in late])
+    qs = [('every-connection-beyond-the-pool-size-is-started', stranded, [nf] + pinsA),
+          ('each-connection-served-by-exactly-one-worker', z3.Or(*[z3.UGE(SK['runs:%d' % i], 2) for i in enc.tasks] + [SK['foreign_task']]), [nf] + pinsA),
+          ('no-panic-in-pool-code', z3.Or(*[enc.at_term(t, SK, 'panic') for t in enc.threads]), [nf] + pinsA),
+          ('witness/both-late-connections-started', z3.And(*[SK['runs:%d' % i] == 1 for i in late]), [nf] + pinsA)]
+    res = bmc.solve_many(enc, qs, timeout_ms=300000, seed=seed, jobs=4, extract=lambda e, mm: e.replay_info(mm))
+    rep.states += sum(len(t.locs) for t in enc.threads)
+    rep.transitions += len(enc.cmds)
+    rep.bounds[name] = {'initial_workers_from_MIR': n_init, 'connections_open_before_the_burst': n_init, 'dispatches_in_the_burst': 2, 'dynamic_worker_slots': 2,
+                        'K_steps_per_connection_to_saturate (one schedule each, found by the solver)': KA, 'K_steps_of_the_burst': KB, 'build_s': round(time.time() - t0, 1)}
+    report_results(rep, 'C08', name, res, {}, [name, n, 2, KB], replayer=lambda v, info: replay_pool(L, v, rep, info, opsA, n))
 
 
 def report_results(rep, prop, name, res, known, cfg, replayer=None):
@@ -366,8 +434,8 @@ def replay_pool(L, v, rep, info, startup_ops, n, tasks='park', drop=False):
     ops = list(startup_ops) + list(info['ops'])
     words = ['new'] + ['spawn %d' % i for i in range(1, n + 1)] + (['drop'] if drop else [])
     # only the dispatches the schedule actually starts are part of the program
-    started = sum(1 for (t, o, p) in info['ops'] if t == 'disp' and o == 'observe' and p.get('what') == 'dispatched')
-    disp_ops = [(t, o, p) for (t, o, p) in info['ops'] if t == 'disp']
+    started = sum(1 for (t, o, p) in ops if t == 'disp' and o == 'observe' and p.get('what') == 'dispatched')
+    disp_ops = [(t, o, p) for (t, o, p) in ops if t == 'disp']
     begun = started + (1 if disp_ops and not (disp_ops[-1][1] == 'observe') else 0)
     words = ['new'] + ['spawn %d' % i for i in range(1, min(n, begun) + 1)]
     threads = [('disp', ' ; '.join(words))]
